@@ -287,6 +287,32 @@ fn control_handler_hooks($CH_PARAMS) -> (r: Loop)
         control is SetSyncSpawnHook || control is SetAsyncSpawnHook || control is UnsetSpawnHook || control is SetSyncErrorHandler || control is SetAsyncErrorHandler || control is UnsetErrorHandler,
 $CH_CONTRACT
 
+// ---- the child-ended handler (select arm 1 of start_job): `result = command_state.wait(), if command_state.is_running()` ----
+//@ item wait_handler
+//@ header
+fn wait_handler($STATE_PARAMS) -> (r: Loop)
+    requires
+        inv_live(&*old(command_state), old(env)),
+        inv_restart(*old(stop_timer), *old(on_end_restart), old(env)),
+    ensures
+        inv_live(&*final(command_state), final(env)), // OBL:C04.wait_handler.at_most_one_live_child
+        // every ticket parked in the task is resolved or still parked afterwards (none is dropped), whatever fails
+        forall|f: int| parked(f, *old(stop_timer), old(on_end)@, *old(on_end_restart)) ==>
+            final(env).raised@.contains(f) || parked(f, *final(stop_timer), final(on_end)@, *final(on_end_restart)), // OBL:C07.wait_handler.no_ticket_is_dropped
+        inv_restart(*final(stop_timer), *final(on_end_restart), final(env)), // OBL:C07.wait_handler.restart_ticket_stays_covered
+        // only tickets that were waiting for this process to end are resolved, and only if it did end
+        forall|f: int| final(env).raised@.contains(f) ==> old(env).raised@.contains(f)
+            || (reaped_in($ENVS, cs_view(&*old(command_state))) && parked(f, *old(stop_timer), old(on_end)@, *old(on_end_restart))), // OBL:C09.wait_handler.no_early_resolution
+        c09_child_ended($OV, $FV, $ENVS, command, r is Skip), // OBL:C06+C07+C09.wait_handler.child_ended
+        !(r is Break), // OBL:C09.wait_handler.never_ends_the_job
+        final(env).now@ >= old(env).now@,
+//@ prologue
+broadcast use lemma_all_ids_push;
+//@ loop 0 iter=vx_it
+$RAISE_LOOP_PRE
+$INV_SM
+//@ end
+
 //@ item control_groups_cover
 //@ raw
 pub proof fn lemma_control_groups_cover(control: Control)
